@@ -602,7 +602,11 @@ fn uninstall(prev: Box<dyn Fn(&std::panic::PanicHookInfo<'_>) + Sync + Send + 's
     std::panic::set_hook(prev);
 }
 
+/// scenarios in which a caller never returned: after a few of them the remaining scenarios are skipped (each costs seconds)
+static HUNG_SCENARIOS: AtomicU32 = AtomicU32::new(0);
+
 fn one(ctx: &mut Ctx, rts: &mut Runtimes, sc: &Scenario, tag: u64) {
+    if HUNG_SCENARIOS.load(Ordering::SeqCst) >= 3 { ctx.stat("scenarios_skipped_after_hangs"); return; }
     let value_base = (tag % 900 + 1) * 100;
     let rr = run_scenario(rts, sc, value_base);
     let an = analyse(sc, &rr);
@@ -621,6 +625,7 @@ fn one(ctx: &mut Ctx, rts: &mut Runtimes, sc: &Scenario, tag: u64) {
     ctx.stat(&format!("flight.max_members.{:02}", max_members));
 
     if rr.hung {
+        HUNG_SCENARIOS.fetch_add(1, Ordering::SeqCst);
         let stuck: Vec<usize> = (0..n).filter(|c| !rr.events.iter().any(|e| matches!(e, Ev::X(x, _) if x == c))).collect();
         ctx.fail("C20", "caller-never-returned", format!("mode {}: callers {:?} did not return within {:?}", sc.mode.name(), stuck, DEADLINE), replay.clone());
     }
